@@ -21,7 +21,7 @@ func init() {
 		Level: "exploration",
 		Rule: "a real p9p.CSession client in front of a scripted fake server (raw wire, reference codec). (a) Rounds on one session: N in {1..64} concurrent callers of mixed kinds (Read, Stat, Walk, Open, Attach, Write, Create), every call and every reply carrying a unique id; the server collects the requests, " +
 			"answers them in a PRNG permutation in several batches with new callers arriving in between, some replies are Rerror, some callers abandon their call (context cancelled) before the reply and are answered late — in the same or a later round. (b) Tag wrap: one session, >= 70 000 calls from 8 pipelining callers answered at once, " +
-			"while L in {1,17,200} long-outstanding (some abandoned) calls pin tags spread over the tag space; thorough repeats with 200 000 calls. (c) Depletion: 65535 calls are abandoned as their requests arrive and never answered, so that every tag is outstanding; one more call must fail without putting a request on the wire; after the replies are sent a new call succeeds. (d) calls issued with an already ended context while others are pending. Online monitor: a request's tag is never NOTAG and never equal to a tag still awaiting its reply on the server side (including abandoned calls); each call returns the result carrying its own id (or the error text of its Rerror); " +
+			"while L in {1,17,200} long-outstanding (some abandoned) calls pin tags spread over the tag space; thorough repeats with 200 000 calls. (c) Depletion: 65535 calls are abandoned as their requests arrive and never answered, so that every tag is outstanding; one more call must fail without putting a request on the wire; after the replies are sent a new call succeeds. (d) calls issued with an already ended context while others are pending. (e) Idle wrap: 66 100 strictly sequential calls (nothing outstanding when the counter passes 0xFFFE), with a pause of one abandoned call now and then. Online monitor: a request's tag is never NOTAG and never equal to a tag still awaiting its reply on the server side (including abandoned calls); each call returns the result carrying its own id (or the error text of its Rerror); " +
 			"at quiescence every call whose reply was sent has returned; the wrap 0xFFFE->0 must be observed in (b). Go race detector on transport.go / csession.go / channel.go. non-trivial = >= 2 outstanding tags and >= 1 reply out of request order; distinct by hash of (arrival order, reply order)",
 		Assumptions: []string{
 			"the fake server is the judge of 'awaiting a reply': a tag is outstanding from the moment its request is parsed until the script sends its reply",
@@ -30,9 +30,9 @@ func init() {
 		Race:      true,
 		RaceFiles: []string{"transport.go", "csession.go", "channel.go"},
 		Shards:    shards(8, 16),
-		Timeout:   timeouts(4*time.Minute, 40*time.Minute),
+		Timeout:   timeouts(8*time.Minute, 60*time.Minute),
 		MinEvals:  50,
-		Required:  []string{"rounds", "replies_out_of_order", "abandoned_then_answered_late", "error_replies", "wrap_runs", "tag_wraps_observed", "pinned_tags_skipped_checks", "calls_returned_own_uid", "abandoned_during_write", "pin_bursts_below_notag", "dead_context_calls_among_pending", "depletion_runs", "depleted_call_refused"},
+		Required:  []string{"rounds", "replies_out_of_order", "abandoned_then_answered_late", "error_replies", "wrap_runs", "tag_wraps_observed", "pinned_tags_skipped_checks", "calls_returned_own_uid", "abandoned_during_write", "pin_bursts_below_notag", "dead_context_calls_among_pending", "depletion_runs", "depleted_call_refused", "idle_wrap_runs"},
 		Run:       runC05,
 	})
 }
@@ -66,6 +66,12 @@ func runC05(w *mon.W) {
 		// quick: one shard; thorough: two
 		if w.Mine(i) && i >= 3 && i < 3+w.Scale(1, 2) {
 			runC05Depletion(w, i)
+		}
+	}
+	for i := 0; i < w.Scale(1, 2)*w.NShards; i++ {
+		// an idle wrap: strictly sequential calls, nothing outstanding when the tag counter wraps
+		if w.Mine(i) && i >= 4 && i < 4+w.Scale(1, 2) {
+			runC05IdleWrap(w, i)
 		}
 	}
 	wraps := w.Scale(1, 5)
@@ -766,4 +772,75 @@ func runC05Depletion(w *mon.W, no int) {
 		}
 	}
 	w.Sample(map[string]interface{}{"depletion_run": no, "outstanding_tags": n, "extra_call_error": fmt.Sprint(extra.err)})
+}
+
+// runC05IdleWrap: one caller, one call at a time, so that no tag is outstanding when the
+// allocator passes the end of the tag space.
+func runC05IdleWrap(w *mon.W, no int) {
+	h := newCliH(0, 1<<20)
+	defer h.close()
+	w.Case("C05 idle wrap run #%d", no)
+	if err := h.dial(); err != nil {
+		w.Inconclusive("dial: %v", err)
+		return
+	}
+	w.Eval()
+	w.Count("idle_wrap_runs", 1)
+	var mu sync.Mutex
+	seen, wraps, lastTag := 0, 0, -1
+	violated := false
+	h.mu.Lock()
+	h.onReq = func(fc *p9p.Fcall) {
+		mu.Lock()
+		seen++
+		if fc.Tag == p9p.NOTAG {
+			violated = true
+			w.Violate("mismatch", "C05:notag-used", fmt.Sprintf("idle wrap: request #%d (uid %d) uses NOTAG (no other request outstanding)", seen, uidOfRequest(fc)), nil)
+		}
+		if int(fc.Tag) < lastTag {
+			wraps++
+		}
+		lastTag = int(fc.Tag)
+		mu.Unlock()
+		h.reply(replyFor(fc, uidOfRequest(fc)))
+	}
+	h.mu.Unlock()
+	const total = 66100
+	done := make(chan struct{})
+	var tearingDown int32
+	go func() {
+		defer close(done)
+		ctx := context.Background()
+		for uid := 1; uid <= total; uid++ {
+			r := doCall(ctx, h.sess, callKind(uid%int(nCallKinds)), uid)
+			if r.err != nil || r.uid != uid {
+				if atomic.LoadInt32(&tearingDown) == 0 {
+					w.Violate("mismatch", "C05:crossed-reply", fmt.Sprintf("idle wrap: call uid=%d returned uid=%d err=%v", uid, r.uid, r.err), nil)
+				}
+				return
+			}
+		}
+	}()
+	q := mon.AwaitQuiesceLong(done, 25*time.Minute)
+	if !q.Done {
+		atomic.StoreInt32(&tearingDown, 1)
+	}
+	if q.Hung {
+		w.Violate("hang", "C05:hang:"+q.Sites, "idle wrap: the caller has not returned although the process is quiescent; blocked at "+q.Sites, nil)
+		return
+	}
+	if !q.Done {
+		w.Inconclusive("watchdog in idle wrap run")
+		return
+	}
+	mu.Lock()
+	defer mu.Unlock()
+	w.Count("tag_wraps_observed", int64(wraps))
+	w.Count("wrap_requests", int64(seen))
+	if wraps == 0 && !violated {
+		w.Inconclusive("idle wrap run saw no tag wrap in %d requests", seen)
+	}
+	if !violated {
+		w.NT(fmt.Sprintf("idlewrap/%d", no))
+	}
 }
